@@ -348,7 +348,26 @@ def replay_bus_off():
             return {'confirmed': True, 'inputs': {'case': 'pjm5bus', 'sequence': "Bus.alter('u', %r, 0); PFlow.run(); reset(); PFlow.run()" % (b,)},
                     'observed': 'after the reset the isolated buses are reported as %r, expected %r' % (list(ss.Bus.islanded_buses), [ss.Bus.idx2uid(b)]),
                     'native_cmd': 'contracts/fn_connman.py replay_bus_off'}
-    return {'confirmed': False, 'tried': ref.Bus.n + 2}
+    # a numbered case extended by a bus without an explicit idx (it is named 'Bus_15'): the bus columns now mix numbers and strings
+    ss = andes.load(andes.get_case('ieee14/ieee14.raw'), default_config=True, no_output=True, setup=False)
+    nb = ss.add('Bus', dict(Vn=69.0))
+    ss.add('Line', dict(bus1=14, bus2=nb, r=0.01, x=0.1, idx='Line_new'))
+    ss.add('PQ', dict(bus=nb, p0=0.02, q0=0.01))
+    ss.setup()
+    ss.Bus.set(src='u', idx=14, attr='v', value=0)
+    try:
+        ss.PFlow.run()
+    except Exception as e:      # noqa
+        return {'confirmed': True, 'inputs': {'case': 'ieee14.raw + Bus (auto idx) + Line 14-<new> + PQ', 'bus switched off': 14}, 'observed': repr(e),
+                'native_cmd': 'contracts/fn_connman.py replay_bus_off'}
+    for mname, flds in fields.items():
+        m = ss.__dict__[mname]
+        for k in range(m.n):
+            attached = any(m.__dict__[f].v[k] == 14 for f in flds)
+            if attached and float(m.u.v[k]) != 0.0:
+                return {'confirmed': True, 'inputs': {'case': 'ieee14.raw + Bus (auto idx %r) + Line 14-%r + PQ' % (nb, nb), 'bus switched off': 14},
+                        'observed': '%s %r is attached to the off bus and still in service' % (mname, m.idx.v[k]), 'native_cmd': 'contracts/fn_connman.py replay_bus_off'}
+    return {'confirmed': False, 'tried': ref.Bus.n + 3}
 
 
 def replay_g_islands(obligation, model, meta):
